@@ -53,6 +53,39 @@ def has_call(t, suffix):
     return any(s[0] == "call" and isinstance(s[1], str) and F.strip_generics(s[1]).endswith(suffix) for s in T.subterms(t))
 
 
+def check_counter_keys(fx, rep, rule):
+    # one counter per instruction offset: every access to a counter table in the VM's bookkeeping types is keyed by the offset it was
+    # handed, as it stands (a narrowed / masked key lets offsets share a counter: dead code counts as visited and live code is
+    # abandoned early), and the key type of the table is the offset type
+    n_keys = 0
+    for b in fx.fn_bodies():
+        if not (b.get("impl_self") or "").startswith("vm::data::") or not b.get("hir") or b.get("from_expansion"):
+            continue
+        root = b["hir"]["value"]
+        params = {p["local"]: p for p in b["hir"]["params"] if p.get("p") == "Bind"}
+        for c, cps in F.calls(root):
+            if c.get("k") != "MethodCall" or c["method"] not in ("entry", "get", "get_mut", "insert", "remove", "contains_key", "contains") or "std::collections::HashMap<" not in (c.get("recv_ty") or "") or not c["args"]:
+                continue
+            recv = T.term(c["recv"], T.Env())
+            while isinstance(recv, tuple) and recv[0] in ("ref", "deref") and len(recv) > 1:
+                recv = recv[1]
+            if not (isinstance(recv, tuple) and recv[0] == "field" and recv[1][0] == "local" and recv[1][2] == "self"):
+                continue
+            mut_b = T.mutated_locals(root)
+            k = T.term(c["args"][0], T.env_at(cps, c, mut_b), mut_b)
+            while isinstance(k, tuple) and k[0] in ("ref", "deref") and len(k) > 1:
+                k = k[1]
+            n_keys += 1
+            rep.fn(b["def"])
+            as_it_stands = isinstance(k, tuple) and k[0] == "local" and k[1] in params
+            kt = (c.get("recv_ty") or "").split("HashMap<", 1)[1].split(",", 1)[0].strip()
+            pty = (params[k[1]].get("ty") or "") if as_it_stands else ""
+            same_ty = (not pty) or pty.replace("&", "").strip() == kt
+            ordn = sum(1 for x in rep.instances.get(rule, []) if x.startswith(f"counter-key:{F.strip_generics(b['def'])}#")) + 1
+            rep.oblige(as_it_stands and same_ty, rule, f"counter-key:{F.strip_generics(b['def'])}#{ordn}", F.loc(c["span"]), f"`{b['def']}` keys a counter table with `{T.short(k)[:50]}` (table key type `{kt}`) instead of the instruction offset it was given, as it stands: different offsets can share one counter, so the visit / fork limits are applied to the wrong instructions", sample={"rule": rule, "fn": b["def"], "key": T.short(k)[:40], "key_type": kt} if n_keys <= 3 else None)
+    rep.floor(rule, n_keys, 4, "keyed accesses to the visit / fork counter tables")
+
+
 def check(fx, rep, tier):
     cg = F.CallGraph(fx)
     vm = VMModel(fx, cg)
@@ -248,36 +281,7 @@ def check(fx, rep, tier):
         ins = [c for c, _ in F.calls(root) if (F.callee_def(c) or "").split("::")[-1] in ("or_insert", "insert")]
         ins_one = all(T.term(c["args"][-1], T.Env()) == ("lit", "1") for c in ins) and ins
         rep.oblige(bool(adds) and closure_lits == ["1"] and bool(ins_one), "R03.3", "mark-adds-one", F.loc(mv["span"]), f"mark_visited does not add exactly one to the counter (increments by {closure_lits or '?'}, first visit recorded as {[T.short(T.term(c['args'][-1], T.Env())) for c in ins]})")
-    # one counter per instruction offset: every access to a counter table in the VM's bookkeeping types is keyed by the offset it was
-    # handed, as it stands (a narrowed / masked key lets offsets share a counter: dead code counts as visited and live code is
-    # abandoned early), and the key type of the table is the offset type
-    n_keys = 0
-    for b in fx.fn_bodies():
-        if not (b.get("impl_self") or "").startswith("vm::data::") or not b.get("hir") or b.get("from_expansion"):
-            continue
-        root = b["hir"]["value"]
-        params = {p["local"]: p for p in b["hir"]["params"] if p.get("p") == "Bind"}
-        for c, cps in F.calls(root):
-            if c.get("k") != "MethodCall" or c["method"] not in ("entry", "get", "get_mut", "insert", "remove", "contains_key", "contains") or "std::collections::HashMap<" not in (c.get("recv_ty") or "") or not c["args"]:
-                continue
-            recv = T.term(c["recv"], T.Env())
-            while isinstance(recv, tuple) and recv[0] in ("ref", "deref") and len(recv) > 1:
-                recv = recv[1]
-            if not (isinstance(recv, tuple) and recv[0] == "field" and recv[1][0] == "local" and recv[1][2] == "self"):
-                continue
-            mut_b = T.mutated_locals(root)
-            k = T.term(c["args"][0], T.env_at(cps, c, mut_b), mut_b)
-            while isinstance(k, tuple) and k[0] in ("ref", "deref") and len(k) > 1:
-                k = k[1]
-            n_keys += 1
-            rep.fn(b["def"])
-            as_it_stands = isinstance(k, tuple) and k[0] == "local" and k[1] in params
-            kt = (c.get("recv_ty") or "").split("HashMap<", 1)[1].split(",", 1)[0].strip()
-            pty = (params[k[1]].get("ty") or "") if as_it_stands else ""
-            same_ty = (not pty) or pty.replace("&", "").strip() == kt
-            ordn = sum(1 for x in rep.instances.get("R03.3", []) if x.startswith(f"counter-key:{F.strip_generics(b['def'])}#")) + 1
-            rep.oblige(as_it_stands and same_ty, "R03.3", f"counter-key:{F.strip_generics(b['def'])}#{ordn}", F.loc(c["span"]), f"`{b['def']}` keys a counter table with `{T.short(k)[:50]}` (table key type `{kt}`) instead of the instruction offset it was given, as it stands: different offsets can share one counter, so the visit / fork limits are applied to the wrong instructions", sample={"rule": "R03.3", "fn": b["def"], "key": T.short(k)[:40], "key_type": kt} if n_keys <= 3 else None)
-    rep.floor("R03.3", n_keys, 4, "keyed accesses to the visit / fork counter tables")
+    check_counter_keys(fx, rep, "R03.3")
     # main loop marks before executing
     en, eps = vm.exec_call
     root = ml["hir"]["value"]
